@@ -77,6 +77,16 @@ func runSolver(ctx context.Context, sd solverDef, timeout time.Duration, file st
 
 // discharge runs the race for one obligation. allAgree: run every solver to completion (thorough).
 func discharge(vc *VC, o *Obligation, dir string, timeout time.Duration, seed int) {
+	if o.Static {
+		o.Solver = "static"
+		if o.Goal == "true" {
+			o.Result = "unsat"
+		} else {
+			o.Result = "sat"
+			o.Model = "call at " + o.Pos + " is outside every function whose contract guards it with the lock"
+		}
+		return
+	}
 	if strings.HasPrefix(o.Kind, "mustuse") && o.Goal == "false" {
 		// a syntactic obligation: the outcome of a read that can come up short is discarded at this call
 		o.Result = "sat"
